@@ -10,7 +10,7 @@ COMMON_TRUSTED = [
 
 PROPS = {
     "C19": dict(
-        contracts=["util_timeout"],
+        contracts=["stdlib", "util_timeout", "util_retry", "connectionpool"],
         trusted_base=COMMON_TRUSTED + ["floats are mathematical reals (no NaN/inf/rounding)",
                                        "time.monotonic() is non-decreasing"],
         assumptions=["Timeout(total=<the 'unset' sentinel>) is outside the contract domain (total is None or a number)"],
